@@ -22,10 +22,20 @@ from harness import lib_cm as cm
 
 TNS, ONS = cm.TNS, cm.ONS
 PNS = 'urn:p'
-EXTRA = '<xs:element name="s2" type="xs:string" substitutionGroup="t:s"/>'
+XSD = 'http://www.w3.org/2001/XMLSchema'
+# own schema head (lib_cm.HEAD belongs to C01 and may change): h is the head of {s, q (abstract), d (member of
+# q), s2 (member of s)}
+HEAD = (f'<xs:schema xmlns:xs="{XSD}" targetNamespace="{TNS}" xmlns:t="{TNS}" elementFormDefault="qualified">\n'
+        '<xs:element name="a" type="xs:string"/><xs:element name="b" type="xs:string"/>'
+        '<xs:element name="c" type="xs:string"/><xs:element name="h" type="xs:string"/>'
+        '<xs:element name="s" type="xs:string" substitutionGroup="t:h"/>'
+        '<xs:element name="q" type="xs:string" substitutionGroup="t:h" abstract="true"/>'
+        '<xs:element name="d" type="xs:string" substitutionGroup="t:q"/>'
+        '<xs:element name="s2" type="xs:string" substitutionGroup="t:s"/>\n')
 
-# generator-level substitution closure (what an element *reference* matches)
-SUBST = {'h': ['h', 's', 's2'], 's': ['s', 's2']}
+# generator-level substitution closure = the names an element *reference* matches by name (the abstract member q
+# is matched by name too: the abstract check comes after attribution)
+SUBST = {'h': ['h', 's', 's2', 'd'], 's': ['s', 's2']}
 
 # wildcard specs -> (xsd attributes, needs 1.1)
 WC_SPECS = {
@@ -43,7 +53,7 @@ WC_SPECS = {
 
 # the symbol universe of the reference: (namespace, local); one representative per region
 FRESH = [(TNS, 'zz'), (ONS, 'z'), (PNS, 'z'), ('', 'z')]
-ELEM_NAMES = ['a', 'b', 'c', 'h', 's', 's2']
+ELEM_NAMES = ['a', 'b', 'c', 'h', 's', 's2', 'd', 'q']
 UNIVERSE = [(TNS, n) for n in ELEM_NAMES] + FRESH
 
 
@@ -110,10 +120,10 @@ def needs11(ast: tuple) -> bool:
 def build_schema(models: list[tuple], v11: bool, validation: str = 'lax'):
     import xmlschema
     cls = xmlschema.XMLSchema11 if v11 else xmlschema.XMLSchema10
-    body = [EXTRA]
+    body = []
     for k, m in enumerate(models):
         body.append(f'<xs:element name="m{k}"><xs:complexType>{to_xsd(m)}</xs:complexType></xs:element>')
-    return cls(cm.HEAD + '\n'.join(body) + '</xs:schema>', validation=validation)
+    return cls(HEAD + '\n'.join(body) + '</xs:schema>', validation=validation)
 
 
 # ---------------------------------------------------------------------------------------------
@@ -133,10 +143,53 @@ def random_model(rng, v11: bool, max_depth: int = 3, max_items: int = 3) -> tupl
             return ('a', rng.choice(specs), a[2], a[3]) if r < 0.6 else a
         if r < 0.08:
             return ('l', a[1], a[2], a[3], rng.choice(['string', 'int']))
-        if r < 0.11 and not in_all:
-            return ('e', 's2', a[2], a[3])
+        if r < 0.12 and not in_all:
+            return ('e', rng.choice(['s2', 'd']), a[2], a[3])
         return a
     return rewrite(m, False)
+
+
+OCC_CORE = [(1, 1), (0, 1), (0, None), (1, 2)]
+
+
+def exh2_core() -> list[tuple]:
+    """the complete family: 1..2 leaves over {a,b}, sequence/choice, nesting ≤ 2, occurrences from OCC_CORE"""
+    return list(cm.exhaustive_models(2, ['a', 'b'], occs=OCC_CORE, depth=2))
+
+
+def small_random(rng, nleaves: int, names: list[str], occs: list, depth: int = 2, any_p: float = 0.0) -> tuple:
+    """a random member of lib_cm.exhaustive_models' family with exactly `nleaves` leaves (drawn by random
+    descent, so that the multi-million 3-leaf family needs not be enumerated)"""
+    def leaf() -> tuple:
+        lo, hi = rng.choice(occs)
+        if rng.random() < any_p:
+            return ('a', '##other', lo, hi)
+        return ('e', rng.choice(names), lo, hi)
+
+    def group(n: int, d: int) -> tuple:
+        lo, hi = rng.choice(occs)
+        return ('g', rng.choice(['sequence', 'choice']), lo, hi, items(n, d))
+
+    def items(n: int, d: int) -> list:
+        out = []
+        while n > 0:
+            first = rng.randint(1, n)
+            out.append(item(first, d))
+            n -= first
+        return out
+
+    def item(n: int, d: int) -> tuple:
+        if n == 1 and (d <= 1 or rng.random() < 0.6):
+            return leaf()
+        if d <= 1:
+            raise ValueError
+        return group(n, d - 1)
+
+    while True:
+        try:
+            return group(nleaves, depth)
+        except ValueError:
+            continue
 
 
 def edc_models() -> list[tuple]:
@@ -223,16 +276,22 @@ def model_error_kind(errors: list) -> tuple[Optional[str], list[str]]:
 # ---------------------------------------------------------------------------------------------
 # introspection -> driver request
 
-class Introspector15(cm.Introspector):
-    """adds, for every element particle of the built group, what `is_overlap` / `is_consistent` read"""
+class Introspector15:
+    """Serialises a built XsdGroup (what the schema parser actually produced): the particle tree in the
+    format of Driver/CMJson.lean (ids = Python object identity, dense), and for every element particle
+    what `is_overlap` / `is_consistent` read.  An element's `names` are its name followed by the names
+    it matches through `substitutes` (the implementation's closure; compared with the declared one by
+    the caller)."""
 
     def __init__(self, group: Any, type_ids: dict[int, int]):
-        super().__init__(group)
-        self.type_ids = type_ids
         from xmlschema.validators import XsdElement
+        self.ids: dict[int, int] = {}
+        self.objs: list[Any] = []
+        self.root = group
+        self.json = self.walk(group)
+        self.type_ids = type_ids
         self.einfo = []
         self.types = []
-        self.precs: list[list[int]] = []
         for i, o in enumerate(self.objs):
             if isinstance(o, XsdElement):
                 subs = [cm.split_qname(x.name) + [self.tid(x.type)] for x in o.iter_substitutes()]
@@ -246,6 +305,26 @@ class Introspector15(cm.Introspector):
                     if ge is not None:
                         decls.append(cm.split_qname(n) + [self.tid(ge.type)])
                 self.types.append([i, decls])
+
+    def oid(self, obj: Any) -> int:
+        k = id(obj)
+        if k not in self.ids:
+            self.ids[k] = len(self.objs)
+            self.objs.append(obj)
+        return self.ids[k]
+
+    def walk(self, p: Any) -> dict:
+        from xmlschema.validators import XsdGroup, XsdAnyElement
+        from harness.props.c16 import introspect as wc_introspect
+        pid = self.oid(p)
+        hi = p.max_occurs
+        if isinstance(p, XsdGroup):
+            return {'t': 'g', 'id': pid, 'k': p.model, 'lo': p.min_occurs, 'hi': hi,
+                    'items': [self.walk(i) for i in p.content]}
+        if isinstance(p, XsdAnyElement):
+            return {'t': 'a', 'id': pid, 'lo': p.min_occurs, 'hi': hi, 'w': wc_introspect(p), 'prec': []}
+        names = [cm.split_qname(p.name)] + sorted(cm.split_qname(n) for n in (p.substitutes or ()))
+        return {'t': 'e', 'id': pid, 'lo': p.min_occurs, 'hi': hi, 'names': names}
 
     def tid(self, t: Any) -> int:
         return self.type_ids.setdefault(id(t), len(self.type_ids))
@@ -290,16 +369,35 @@ def ast_of_json(j: dict) -> tuple:
     if j['t'] == 'g':
         return ('g', j['k'], j['lo'], j['hi'], [ast_of_json(i) for i in j['items']])
     if j['t'] == 'e':
-        return ('e', j['names'][0][1], j['lo'], j['hi'])
-    return ('a', None, j['lo'], j['hi'])
+        # the abstract member q is in `substitutes` in one XSD version only; a child named q is refused either way
+        return ('e', [n[1] for n in j['names'] if n[1] != 'q'], j['lo'], j['hi'])
+    w = j['w']
+    return ('a', [s for s in UNIVERSE if wc_json_matches(w, s)], j['lo'], j['hi'])
 
 
 def skeleton(ast: tuple) -> tuple:
     if ast[0] == 'g':
         return ('g', ast[1], ast[2], ast[3], [skeleton(i) for i in ast[4]])
     if ast[0] == 'a':
-        return ('a', None, ast[2], ast[3])
-    return ('e', ast[1], ast[2], ast[3])
+        return ('a', [s for s in UNIVERSE if wc_matches(ast[1], s)], ast[2], ast[3])
+    if ast[0] == 'l':
+        return ('e', [ast[1]], ast[2], ast[3])
+    return ('e', [ast[1]] + sorted(n for n in SUBST.get(ast[1], []) if n != ast[1]), ast[2], ast[3])
+
+
+def wc_json_matches(w: dict, sym: tuple[str, str]) -> bool:
+    """set reading of an introspected wildcard (namespace constraint + notQName), independent of the
+    implementation's matcher and of the Lean model"""
+    ns, loc = sym
+    if w['notNs']:
+        ok = ns not in w['notNs']
+    elif w['ns'] == 'any':
+        ok = True
+    elif w['ns'] == 'other':
+        ok = ns not in ('', w['tns'])
+    else:
+        ok = ns in w['ns']
+    return ok and [ns, loc] not in w['notQ']
 
 
 # ---------------------------------------------------------------------------------------------
@@ -422,39 +520,63 @@ def glushkov_upa(ast: tuple, v11: bool, cap: int = 600) -> Optional[bool]:
     if root[3]:
         return True
 
-    def conflict(ps: set[int]) -> bool:
-        pl = sorted(ps)
-        for i, p in enumerate(pl):
-            for q in pl[i + 1:]:
-                x, y = g.leafof[p], g.leafof[q]
-                if x == y:
-                    continue
-                lx, ly = lvs[x], lvs[y]
-                if v11 and (lx[0] == 'a') != (ly[0] == 'a'):
-                    continue
-                if any(leaf_matches(lx, s) and leaf_matches(ly, s) for s in UNIVERSE):
-                    return True
-        return False
+    # subset construction over attributed symbols (name, particle): two positions of the *same*
+    # particle reached by the same attributed word are not a conflict, but they must be followed together
+    matching = {k: [s for s in UNIVERSE if leaf_matches(l, s)] for k, l in enumerate(lvs)}
 
-    if conflict(root[1]):
+    def moves(cands: set[int]) -> Optional[dict]:
+        """(symbol, particle) -> positions; None if two competing particles can take one symbol"""
+        by_sym: dict[tuple, dict[int, set[int]]] = {}
+        for p in cands:
+            k = g.leafof[p]
+            for s in matching[k]:
+                by_sym.setdefault(s, {}).setdefault(k, set()).add(p)
+        out = {}
+        for s, parts in by_sym.items():
+            ks = sorted(parts)
+            for i, x in enumerate(ks):
+                for y in ks[i + 1:]:
+                    if v11 and (lvs[x][0] == 'a') != (lvs[y][0] == 'a'):
+                        continue
+                    return None
+            for k, ps in parts.items():
+                out[(s, k)] = frozenset(ps)
+        return out
+
+    first = moves(set(root[1]))
+    if first is None:
         return False
-    seen = set(root[1])
-    todo = list(root[1])
+    seen = set(first.values())
+    todo = list(seen)
     while todo:
-        p = todo.pop()
-        if conflict(g.follow[p]):
+        q = todo.pop()
+        cands: set[int] = set()
+        for p in q:
+            cands |= g.follow[p]
+        mv = moves(cands)
+        if mv is None:
             return False
-        for q in g.follow[p]:
-            if q not in seen:
-                seen.add(q)
-                todo.append(q)
+        for nq in mv.values():
+            if nq not in seen:
+                seen.add(nq)
+                if len(seen) > 20000:
+                    return None
+                todo.append(nq)
     return True
+
+
+def live_leaves(ast: tuple) -> list[tuple]:
+    if ast[3] == 0:
+        return []
+    if ast[0] != 'g':
+        return [ast]
+    return [x for i in ast[4] for x in live_leaves(i)]
 
 
 def edc_ref(ast: tuple) -> bool:
     """same name (directly or through the substitution closure of a reference) ⇒ same type"""
     decls: dict[str, set[str]] = {}
-    for l in leaves(ast):
+    for l in live_leaves(ast):
         if l[0] == 'l':
             decls.setdefault(l[1], set()).add(l[4])
         elif l[0] == 'e':
